@@ -12,6 +12,7 @@ From BV Require Import Proofs.PoolRefuted.
 From BV Require Gen.G_pool_shape.
 From BV Require Import Proofs.PoolSup.
 From BV Require Import Model.PoolSys Proofs.PoolSysProofs.
+From BV Require Gen.G_pool_pins.
 Import ListNotations.
 Open Scope Z_scope.
 
@@ -133,3 +134,11 @@ Example C07_witness :
   (pstate s, length (jobs s), map (fun x => (ready x, value x)) (jobs s), map counter (procs s))
   = (1, 2%nat, [(true, Some (PValue 5)); (true, Some (PExc 6))], [1; 1]).
 Proof. vm_compute. reflexivity. Qed.
+
+(* the parent-side functions of billiard/pool.py these theorems are about are, on this run, the very
+   text the hand-written model was read against and is validated against by the correspondence
+   (digests of their ASTs, translate/kernels/poolpins.py): any edit of one of them breaks this
+   obligation and starts the deeper search for a failing history *)
+Theorem C07_modelled_code_is_the_validated_text : G_pool_pins.modelled_code_of_C07 = true.
+Proof. reflexivity. Qed.
+Print Assumptions C07_modelled_code_is_the_validated_text.
